@@ -108,16 +108,18 @@ func main() {
 			rc{"recv-3-instances", recvworld.Cfg{DownloadLimit: 1, DecompressLimit: 2, Instances: []string{"b", "c", "d"}, Corrupt: []string{"c:older"}, Faults: true, Publish: true, Polls: 2}},
 			rc{"recv-corrupt-older", recvworld.Cfg{DownloadLimit: 2, DecompressLimit: 1, Instances: []string{"b", "c"}, Corrupt: []string{"b:older", "c:newest"}, Faults: true, Vanish: true, Polls: 2}})
 	}
-	for _, rn := range runs {
+	for ri, rn := range runs {
 		if r.Expired() {
 			r.AddPart(&ev.Part{Name: rn.name, Engine: "E3", Exhaustive: false, Bound: "not started: time budget used up"})
 			continue
 		}
+		restoreBudget := r.SubBudget(r.Remaining() / time.Duration(len(runs)-ri+6)) // +6: the parts after this loop
 		b := bound
 		if rn.cfg.CleanOlder && !r.Thorough() {
 			b = 1 // the combined environment event alone; preemptions on top of it in the thorough tier
 		}
 		xrun.Explore(r, rn.name, xrun.Opts{Kind: "recv", Bound: b, Budget: 40, Recycle: 2, Param: rn.cfg})
+		restoreBudget()
 	}
 	for _, native := range []bool{true, false} {
 		name := map[bool]string{true: "run-once-native", false: "run-once-shadow"}[native]
